@@ -212,6 +212,43 @@ Theorem C09_disk_polls_exact : forall hist,
 Proof. exact disk_polls_exact. Qed.
 Print Assumptions C09_disk_polls_exact.
 
+(* the wrap bookkeeping (_WrapNumbers.run + _remove_dead_reminders, transcribed in C09/Model.v).
+   Invariant of the cache: every recorded offset belongs to a name of the cached snapshot (true after
+   cache_clear()).  One call -- WHATEVER the sizes of the cached and the new dict, however many names
+   came or went -- keeps the invariant, caches the new dict, and leaves no offset for any name that
+   is absent from the new dict *)
+Theorem C09_wrap_offsets_dropped : forall st input out st',
+  (forall e, In e (wc_rem st) ->
+             has_key (fst (fst e)) (match wc_prev st with None => [] | Some o => o end) = true) ->
+  wrap_run st input = Val (out, st') ->
+  (forall e, In e (wc_rem st') ->
+             has_key (fst (fst e)) (match wc_prev st' with None => [] | Some o => o end) = true)
+  /\ wc_prev st' = Some input
+  /\ forall k i, has_key k input = false -> rem_get (k, i) (wc_rem st') = 0.
+Proof. exact wrap_run_drops. Qed.
+Print Assumptions C09_wrap_offsets_dropped.
+
+(* EVERY history of polls through the default API, restarts included (no hypothesis on the counters):
+   each poll reports the kernel's counters plus exactly the ghost offsets of Spec.spec_wrap_hist -- the
+   values from which a counter restarted while its device stayed listed in consecutive raw dicts; a
+   device that was absent from a poll comes back raw and stays raw on every later poll (until it
+   restarts again while listed); totals are the sums of those per-device values *)
+Theorem C09_net_polls_wrap_exact : forall sp hist,
+  forallb (fun pl => wf_nics (snd pl)) hist = true ->
+  net_polls false wc_init (map (fun pl => (fst pl, k_netdev sp (snd pl))) hist)
+  = map (fun pr => XV (Val (answer_of_rows nic_names (fst (fst pr)) (snd pr))))
+        (combine hist (spec_wrap_hist [] [] (net_hist_rows hist))).
+Proof. exact net_polls_wrap_exact. Qed.
+Print Assumptions C09_net_polls_wrap_exact.
+
+Theorem C09_disk_polls_wrap_exact : forall hist,
+  forallb (fun p => wf_disks (snd p) && no_l24 (snd p)) hist = true ->
+  disk_polls wc_init (map (fun p => (fst (fst p), snd (fst p), ProcDiskstats (k_diskstats (snd p)))) hist)
+  = map (fun pr => Val (answer_of_rows disk_names (fst (fst (fst pr))) (snd pr)))
+        (combine hist (spec_wrap_hist [] [] (disk_hist_rows hist))).
+Proof. exact disk_polls_wrap_exact. Qed.
+Print Assumptions C09_disk_polls_wrap_exact.
+
 (* disk_usage: used = total - free-for-root, free = available to unprivileged users,
    percent = used / (used + free) * 100 (exact rational; 0 when used + free = 0), every statvfs tuple *)
 Theorem C09_disk_usage_spec : forall st, disk_usage st = spec_usage st.
